@@ -10,7 +10,7 @@ from . import core, tlc
 
 PROP = "C16"
 # many single-threaded TLC processes run side by side: keep their GC from fighting for the cores
-JVM_ENV = {"JAVA_TOOL_OPTIONS": "-XX:ParallelGCThreads=2"}
+JVM_ENV = {"JAVA_TOOL_OPTIONS": "-XX:ParallelGCThreads=2 -Xss64m"}
 
 
 def outdir() -> Path:
